@@ -278,6 +278,31 @@ theorem C10_time_average_def (W : ℕ) (x : ℕ → ℕ → ℂ) (n i : ℕ) :
     apply norm_polarC
     exact div_nonneg (Finset.sum_nonneg fun k _ => norm_nonneg _) (Nat.cast_nonneg _)
 
+/-- the window length (over ℝ): `W = ⌊period/interval⌋` is the number of whole frame intervals that fit
+into the period, and `period = m·interval` gives exactly `m` (the float evaluation of this quotient is
+C16's subject; C10 judges periods away from these boundaries) -/
+theorem C10_window (period dt dstep : ℝ) (hi : 0 < dstep * dt) (hp : 0 ≤ period) :
+    ((window Int.floor period dt dstep : ℕ) : ℝ) * (dstep * dt) ≤ period ∧
+    period < ((window Int.floor period dt dstep : ℕ) + 1 : ℝ) * (dstep * dt) ∧
+    (∀ m : ℕ, period = m * (dstep * dt) → window Int.floor period dt dstep = m) := by
+  unfold window
+  have hq : 0 ≤ period / (dstep * dt) := div_nonneg hp hi.le
+  have hf : 0 ≤ ⌊period / (dstep * dt)⌋ := Int.floor_nonneg.mpr hq
+  have hcast : ((⌊period / (dstep * dt)⌋.toNat : ℕ) : ℝ) = (⌊period / (dstep * dt)⌋ : ℝ) := by
+    have : ((⌊period / (dstep * dt)⌋.toNat : ℕ) : ℤ) = ⌊period / (dstep * dt)⌋ := Int.toNat_of_nonneg hf
+    exact_mod_cast this
+  refine ⟨?_, ?_, ?_⟩
+  · rw [hcast]
+    have := Int.floor_le (period / (dstep * dt))
+    rwa [le_div_iff₀ hi] at this
+  · rw [hcast]
+    have := Int.lt_floor_add_one (period / (dstep * dt))
+    rwa [div_lt_iff₀ hi] at this
+  · intro m hm
+    have : period / (dstep * dt) = (m : ℝ) := by rw [hm]; exact mul_div_cancel_right₀ _ hi.ne'
+    rw [this]
+    simp
+
 /-- both kinds of time average keep the modulus ≤ 1, are exact on a constant window, and the complex
 average is covariant under a global rotation (factor `c`), the separate one keeps its modulus -/
 theorem C10_time_average_props (W : ℕ) (hW : 0 < W) (x : ℕ → ℕ → ℂ) (n i : ℕ) :
